@@ -220,8 +220,8 @@ function of `k` and the call alone, whatever happened before. -/
 theorem unseeded_reproducible (A : GenAlg G Draw Out) (cfg : Config) {m : Nat} (c : Call Draw)
     (k : Nat) {w : World G} (h : seeded cfg w m = false) :
     outputs A cfg m w [.seedGlobal k, .sample m c] = [result A (A.fromSeed k) c] := by
-  have h' : seeded cfg (stepW A cfg w (.seedGlobal k)) m = false := h
-  simp [outputs, outputOp, sample_unseeded A cfg c h', drawGlobal, stepW, step]
+  have h' : seeded cfg (⟨A.fromSeed k, w.heap, w.next, w.rs⟩ : World G) m = false := h
+  simp [outputs, outputOp, stepW, step, sample_unseeded A cfg c h', drawGlobal]
 
 /-! ## `RandomState` objects supplied by the caller -/
 
